@@ -1,7 +1,8 @@
 package vsched
 
 import (
-	"fmt"
+	"reflect"
+	"runtime"
 	"unsafe"
 )
 
@@ -93,23 +94,51 @@ type Case struct {
 	ptr   unsafe.Pointer
 	kind  Kind
 	ready func() bool
+	do    func() (interface{}, bool) // performs the communication for real
+	rch   reflect.Value
+	rsend reflect.Value
 }
 
 // RecvCase describes `case ... <-ch`.
 func RecvCase[T any](ch <-chan T) Case {
 	p := *(*unsafe.Pointer)(unsafe.Pointer(&ch))
-	return Case{ptr: p, kind: KChRecv, ready: func() bool { return len(ch) > 0 || s.closedCh[p] }}
+	return Case{ptr: p, kind: KChRecv,
+		ready: func() bool { return len(ch) > 0 || s.closedCh[p] },
+		do:    func() (interface{}, bool) { v, ok := <-ch; return v, ok },
+		rch:   reflect.ValueOf(ch)}
 }
 
 // SendCase describes `case ch <- v`.
-func SendCase[T any](ch chan<- T) Case {
+func SendCase[T any](ch chan<- T, v T) Case {
 	p := *(*unsafe.Pointer)(unsafe.Pointer(&ch))
-	return Case{ptr: p, kind: KChSend, ready: func() bool {
-		if cap(ch) == 0 {
-			panic("vsched: send on unbuffered channel is not modelled")
-		}
-		return len(ch) < cap(ch)
-	}}
+	return Case{ptr: p, kind: KChSend,
+		ready: func() bool {
+			if cap(ch) == 0 {
+				panic("vsched: send on unbuffered channel is not modelled")
+			}
+			return len(ch) < cap(ch)
+		},
+		do:    func() (interface{}, bool) { ch <- v; return nil, true },
+		rch:   reflect.ValueOf(ch),
+		rsend: reflect.ValueOf(&v).Elem()}
+}
+
+// Selected is the outcome of Select: the index of the clause that ran (-1:
+// default), and for a receive clause the value and ok flag.
+type Selected struct {
+	I  int
+	V  interface{}
+	OK bool
+}
+
+// RecvVal converts the value received by Select back to the channel's
+// element type.
+func RecvVal[T any](ch <-chan T, v interface{}) T {
+	if v == nil {
+		var z T
+		return z
+	}
+	return v.(T)
 }
 
 // FreshCaches makes SelectCache behave as an always-empty / always-full
@@ -119,33 +148,53 @@ var FreshCaches = true
 
 // SelectCache is Select for best-effort object caches implemented as
 // `select { case x := <-cache: ... default: ... }`.
-func SelectCache(hasDefault bool, cases ...Case) int {
+func SelectCache(hasDefault bool, cases ...Case) Selected {
 	if Active() && FreshCaches && hasDefault {
-		return -1
+		return Selected{I: -1}
 	}
 	return Select(hasDefault, cases...)
 }
 
-// Select decides which clause of a select statement runs: the index of a
-// ready case, or -1 for default. With several ready cases the choice is an
-// explored data choice. The caller performs the real channel operation of
-// the chosen clause immediately afterwards.
-func Select(hasDefault bool, cases ...Case) int {
+// Select runs a select statement: it decides which clause runs and performs
+// its communication. With several ready cases the choice is an explored data
+// choice under the scheduler (and Go's own pseudo-random choice otherwise).
+func Select(hasDefault bool, cases ...Case) Selected {
 	if !s.running {
-		panic("vsched: Select called in free mode (the rewriter keeps the original select there)")
+		// Free mode: a real select.
+		rc := make([]reflect.SelectCase, 0, len(cases)+1)
+		for _, c := range cases {
+			if c.kind == KChRecv {
+				rc = append(rc, reflect.SelectCase{Dir: reflect.SelectRecv, Chan: c.rch})
+			} else {
+				rc = append(rc, reflect.SelectCase{Dir: reflect.SelectSend, Chan: c.rch, Send: c.rsend})
+			}
+		}
+		if hasDefault {
+			rc = append(rc, reflect.SelectCase{Dir: reflect.SelectDefault})
+		}
+		i, v, ok := reflect.Select(rc)
+		if hasDefault && i == len(cases) {
+			return Selected{I: -1}
+		}
+		if cases[i].kind == KChRecv {
+			if !ok {
+				return Selected{I: i, V: nil, OK: false}
+			}
+			return Selected{I: i, V: v.Interface(), OK: true}
+		}
+		return Selected{I: i, OK: true}
 	}
 	if s.aborting {
 		for i, c := range cases {
 			if c.ready() {
-				return i
+				v, ok := c.do()
+				return Selected{I: i, V: v, OK: ok}
 			}
 		}
 		if hasDefault {
-			return -1
+			return Selected{I: -1}
 		}
-		// Nothing is ready while unwinding: the caller's real operation would
-		// block. Stop this goroutine here instead.
-		panic("vsched: select with nothing ready during unwinding")
+		runtime.Goexit()
 	}
 	if len(cases) > 3 {
 		panic("vsched: select with more than 3 cases")
@@ -177,13 +226,14 @@ func Select(hasDefault bool, cases ...Case) int {
 	}
 	if n == 0 {
 		if !hasDefault {
-			panic(fmt.Sprintf("vsched: select scheduled with no ready case"))
+			panic("vsched: select scheduled with no ready case")
 		}
-		return -1
+		return Selected{I: -1}
 	}
-	return idx[Choose(n, "select", true)]
+	i := idx[Choose(n, "select", true)]
+	v, ok := cases[i].do()
+	return Selected{I: i, V: v, OK: ok}
 }
 
-// Free reports whether no controlled execution is in progress; rewritten
-// select statements keep their original form on that path.
+// Free reports whether no controlled execution is in progress.
 func Free() bool { return !s.running }
